@@ -36,8 +36,17 @@ COMP = {"A": "T", "C": "G", "G": "C", "T": "A", "-": "-", "R": "Y", "Y": "R", "M
 COMPX = [NUC.index(COMP[s]) for s in NUC]
 
 
+_PCACHE = {}
+
+
 def pinned_arrays(tid, init):
-    """(basic[64], isinit[64]) in the code's codon order 16x+4y+z over ACGT"""
+    """(basic[64], isinit[64]) in the code's codon order 16x+4y+z over ACGT (cached: one object per (table, setting))"""
+    if (tid, init) not in _PCACHE:
+        _PCACHE[(tid, init)] = _pinned_arrays(tid, init)
+    return _PCACHE[(tid, init)]
+
+
+def _pinned_arrays(tid, init):
     aas, starts = PINNED[tid]
     basic, ini = [None] * 64, [None] * 64
     for p in range(64):
@@ -49,8 +58,24 @@ def pinned_arrays(tid, init):
     return basic, ini
 
 
+_TCACHE = {}
+
+
 def translate(basic, ini, a, b, c):
-    """spec: (aa as unsigned byte, initiator flag) of a possibly degenerate codon"""
+    """spec: (aa as unsigned byte, initiator flag) of a possibly degenerate codon (memoised per table)"""
+    key = (id(basic), id(ini))
+    tab = _TCACHE.get(key)
+    if tab is None or tab[0] is not basic or tab[1] is not ini:
+        tab = (basic, ini, {})
+        _TCACHE[key] = tab
+    r = tab[2].get((a, b, c))
+    if r is None:
+        r = _translate(basic, ini, a, b, c)
+        tab[2][(a, b, c)] = r
+    return r
+
+
+def _translate(basic, ini, a, b, c):
     cods = [16 * x + 4 * y + z for x in SETS[a] for y in SETS[b] for z in SETS[c]]
     if not cods: return 255, 0
     aas = {basic[k] for k in cods}
@@ -135,7 +160,7 @@ class C17(Prop):
     harness = "h_gencode.c"
     theorems = ["EaselModel.Props.C17." + t for t in (
         "tables_pinned", "table_ids", "no_initiator_stop", "read_write_roundtrip", "expand_is_iupac", "translation_spec", "translation_shared",
-        "initiator_spec", "initiator_settings", "window_split_invariant", "orf_stream_eq_spec", "orf_frame_declarative", "builtin_tables_ok")]
+        "initiator_spec", "initiator_settings", "window_split_invariant", "orf_stream_eq_spec", "orf_frame_declarative", "orf_numbering_and_order", "builtin_tables_ok")]
     claimed = True
     technique = ("Lean 4 proof: built-in tables regenerated from the tree = hand-pinned NCBI tables by `decide`; general theorems (any table, any "
                  "degeneracy matrix) that the triple loop computes the shared amino acid / all-initiators; ORF machine modelled and tied by exact "
@@ -154,7 +179,7 @@ class C17(Prop):
                   "x 3 settings every run). The one-frame finder is proved equal to the declarative 'split the frame at stops, drop the codons before the first "
                   "initiator, keep >= minlen' (orf_frame_declarative). Read(Write t) = t is a `decide` theorem over all 18 tables x 3 settings on the "
                   "hand model of esl_gencode_Read/Write (fileparser line skipping + the five anchored regexps), tied by the differential run on "
-                  "valid and damaged NCBI texts. Not a theorem: global numbering orf1..n / interleaving order of the three frames (monitored).")
+                  "valid and damaged NCBI texts. Numbering orf1..n and the order of the records (end coordinates strictly advancing in reading direction) are theorem orf_numbering_and_order.")
     diverge_is_violation = True
     trusted_base = ["table dumper translate/tables_gencode.py (#includes esl_gencode.c, prints esl_transl_tables[])",
                     "hand model of esl_gencode.c tied by exact differential run (h_gencode.c, ASan+UBSan)",
